@@ -151,6 +151,9 @@ def run_high_low(c, res):
         if N > 0 or D == 2:
             conts['fcs:I'] = load(M if N else [], 'I') if (N or D == 2) else None
             conts['fcs:F'] = load(M if N else [], 'F') if (N or D == 2) else None
+            # a converted sample: every value and both range limits moved up by one (the defaults are the limits the sample has NOW)
+            if conts['fcs:I'] is not None:
+                conts['fcs:shift'] = FlowCal.transform.transform(conts['fcs:I'], list(range(conts['fcs:I'].shape[1])), lambda x: x + 1.0)
         for cn, data in conts.items():
             if single and cn != single['cont']:
                 continue
@@ -184,9 +187,10 @@ def run_high_low(c, res):
                         for i in range(N):
                             keep = True
                             for j in sel:
-                                h = hi if hi is not None else (3 if named else float('inf'))
-                                l = lo_v if lo_v is not None else (0 if named else float('-inf'))
-                                x = M[i][j]
+                                off = 1 if cn == 'fcs:shift' else 0
+                                h = hi if hi is not None else (3 + off if named else float('inf'))
+                                l = lo_v if lo_v is not None else (0 + off if named else float('-inf'))
+                                x = M[i][j] + off
                                 keep = keep and (l < x < h)
                             exp.append(keep)
                         if check_gate_output(res, 'high_low:' + cn, what, data, full, short, exp, one):
